@@ -6,8 +6,8 @@ import GarbleVerif.Model.MatchSpec
 
 `bitExpr` / `bitStmts` / `bitStmt` follow `compile.rs` (`TypedExpr::compile`, `TypedStmt::compile`) on the
 core fragment of the language — Booleans and integers of every width with all their operators and casts, tuples,
-structs and arrays (literals, `t.i`, `s.f`, `[e; n]`, `lo..hi`, `a[i]`), `if`/`else`, `match` with literal, range,
-binding, tuple and struct patterns whose arms cover the type, blocks, `()`, `let` with irrefutable patterns, `let mut`,
+structs, enums and arrays (literals, `t.i`, `s.f`, `[e; n]`, `lo..hi`, `a[i]`), `if`/`else`, `match` with literal, range,
+binding, tuple, struct and enum patterns whose arms cover the type, blocks, `()`, `let` with irrefutable patterns, `let mut`,
 assignment to a variable and through `.i` / `.f` / `[i]` accessors, `for pattern in array`, and
 calls (`callAt`: the callee's body with its parameters bound to the argument wires)
 — but instead of emitting gates they compute the value every wire would carry for given
@@ -210,6 +210,18 @@ def patG : Pat → Ty → List Bool → Option (Bool × BEnv)
     | some (m, _) => some (m, [])
     | none => none
   | .struct _ fps, .struct _ fs, bs => fieldsG fps fs bs
+  /- an enum pattern compares the tag; a tuple variant then looks at the payload -/
+  | .enumUnit _ v, .enum _ variants, bs =>
+    match variants.find? v with
+    | some (i, _, _) => some (Arith.eqBits (natToBits i variants.tagSize) (bs.take variants.tagSize), [])
+    | none => none
+  | .enumTuple _ v ps, .enum _ variants, bs =>
+    match variants.find? v with
+    | some (i, _, fts) =>
+      match patsG ps fts (bs.drop variants.tagSize) with
+      | some (m2, bb) => some (Arith.eqBits (natToBits i variants.tagSize) (bs.take variants.tagSize) && m2, bb)
+      | none => none
+    | none => none
   | _, _, _ => none
 def fieldsG : FieldPats → Fields → List Bool → Option (Bool × BEnv)
   | .nil, _, _ => some (true, [])
@@ -292,9 +304,15 @@ abbrev ArmSt := Bool × Option (VTy × List Bool) × P × BEnv
 function is not part of the fragment) -/
 abbrev CallFn := String → List (VTy × List Bool) → Option (VTy × List Bool × P)
 
+/-- what the compilation of a function body needs to know about the rest of the program: how calls behave and
+how the enums are defined (an enum literal names its type only) -/
+structure Ctx where
+  fn : CallFn
+  enums : String → Option Variants
+
 mutual
 /-- type, bits, panic (the first one raised inside `e`, if any) and variables after an expression -/
-def bitExpr (call : CallFn) (benv : BEnv) : Expr → Option (VTy × List Bool × P × BEnv)
+def bitExpr (call : Ctx) (benv : BEnv) : Expr → Option (VTy × List Bool × P × BEnv)
   | .bool b => some (.s .bool, [b], none, benv)
   | .int n k => if k.inRange n then some (.s (.int k), intToBits n k.bits, none, benv) else none
   | .var x =>
@@ -431,6 +449,22 @@ def bitExpr (call : CallFn) (benv : BEnv) : Expr → Option (VTy × List Bool ×
     | some (vs, p, env1) =>
       some (.agg (.struct name (Fields.ofList (vs.map fun x => (x.1, x.2.1.toTy)))), vs.flatMap (·.2.2), p, env1)
     | none => none
+  /- an enum literal: the tag of the variant, the wires of its fields, zeros up to the largest variant -/
+  | .enumLit ename variant isUnit es =>
+    match call.enums ename with
+    | some variants =>
+      match variants.find? variant with
+      | some (i, u, fts) =>
+        match bitList call benv es with
+        | some (vs, p, env1) =>
+          if u = isUnit ∧ vs.map (·.1) = fts.toList.map VTy.ofTy then
+            let payload := vs.flatMap (·.2)
+            some (.agg (.enum ename variants),
+              natToBits i variants.tagSize ++ payload ++ List.replicate (variants.maxPayload - payload.length) false, p, env1)
+          else none
+        | none => none
+      | none => none
+    | none => none
   /- `s.f`: the wires of the field -/
   | .field a fname =>
     match bitExpr call benv a with
@@ -487,13 +521,13 @@ def bitExpr (call : CallFn) (benv : BEnv) : Expr → Option (VTy × List Bool ×
   | .call fn args =>
     match bitList call benv args with
     | some (vs, pargs, env1) =>
-      match call fn vs with
+      match call.fn fn vs with
       | some (t, bs, pb) => some (t, bs, seqP pargs pb, env1)
       | none => none
     | none => none
   | _ => none
 /-- argument lists: left to right, the first panic wins -/
-def bitList (call : CallFn) (benv : BEnv) : ExprList → Option (List (VTy × List Bool) × P × BEnv)
+def bitList (call : Ctx) (benv : BEnv) : ExprList → Option (List (VTy × List Bool) × P × BEnv)
   | .nil => some ([], none, benv)
   | .cons e rest =>
     match bitExpr call benv e with
@@ -503,7 +537,7 @@ def bitList (call : CallFn) (benv : BEnv) : ExprList → Option (List (VTy × Li
       | none => none
     | none => none
 /-- the fields of a struct literal: left to right, the first panic wins -/
-def bitFields (call : CallFn) (benv : BEnv) : FieldExprs → Option (List (String × VTy × List Bool) × P × BEnv)
+def bitFields (call : Ctx) (benv : BEnv) : FieldExprs → Option (List (String × VTy × List Bool) × P × BEnv)
   | .nil => some ([], none, benv)
   | .cons n e rest =>
     match bitExpr call benv e with
@@ -513,7 +547,7 @@ def bitFields (call : CallFn) (benv : BEnv) : FieldExprs → Option (List (Strin
       | none => none
     | none => none
 /-- the arm loop: `s = !has_prev_match && is_match` selects the arm -/
-def bitArms (call : CallFn) (benv1 : BEnv) (ts : Ty) (scrut : List Bool) : Arms → ArmSt → Option ArmSt
+def bitArms (call : Ctx) (benv1 : BEnv) (ts : Ty) (scrut : List Bool) : Arms → ArmSt → Option ArmSt
   | .nil, st => some st
   | .cons p e rest, (hasPrev, ret, pacc, envAcc) =>
     match patG p ts scrut with
@@ -535,7 +569,7 @@ def bitArms (call : CallFn) (benv1 : BEnv) (ts : Ty) (scrut : List Bool) : Arms 
             (hasPrev || m, some (te, if s then be else List.replicate be.length false), if s then pe else pacc,
               muxEnv s envOut envAcc)
 /-- the value of a statement list is that of its last statement -/
-def bitStmts (call : CallFn) (benv : BEnv) : StmtList → Option (VTy × List Bool × P × BEnv)
+def bitStmts (call : Ctx) (benv : BEnv) : StmtList → Option (VTy × List Bool × P × BEnv)
   | .nil => some (.unit, [], none, benv)
   | .cons s .nil => bitStmt call benv s
   | .cons s rest =>
@@ -545,7 +579,7 @@ def bitStmts (call : CallFn) (benv : BEnv) : StmtList → Option (VTy × List Bo
       | some (t2, bs2, p2, env2) => some (t2, bs2, seqP p1 p2, env2)
       | none => none
     | none => none
-def bitStmt (call : CallFn) (benv : BEnv) : Stmt → Option (VTy × List Bool × P × BEnv)
+def bitStmt (call : Ctx) (benv : BEnv) : Stmt → Option (VTy × List Bool × P × BEnv)
   | .let_ (.ident x) e =>
     match bitExpr call benv e with
     | some (t, bs, p1, env1) => some (.unit, [], p1, (x, t, bs) :: env1)
@@ -565,6 +599,15 @@ def bitStmt (call : CallFn) (benv : BEnv) : Stmt → Option (VTy × List Bool ×
     | some (t, bs, p1, env1) =>
       if irrefutable t.toTy (.struct sn fps) then
         match patG (.struct sn fps) t.toTy bs with
+        | some (_, bb) => some (.unit, [], p1, bb ++ env1)
+        | none => none
+      else none
+    | none => none
+  | .let_ (.enumTuple en vn ps) e =>
+    match bitExpr call benv e with
+    | some (t, bs, p1, env1) =>
+      if irrefutable t.toTy (.enumTuple en vn ps) then
+        match patG (.enumTuple en vn ps) t.toTy bs with
         | some (_, bb) => some (.unit, [], p1, bb ++ env1)
         | none => none
       else none
@@ -634,7 +677,7 @@ def bitStmt (call : CallFn) (benv : BEnv) : Stmt → Option (VTy × List Bool ×
   | _ => none
 /-- the wires `cur` of a value of type `t` with the component at the end of the path replaced by `vb` (of type `vt`);
 an index out of bounds leaves the wires as they are and panics -/
-def bitUpd (call : CallFn) (benv : BEnv) (t : Ty) (cur : List Bool) (vt : VTy) (vb : List Bool) :
+def bitUpd (call : Ctx) (benv : BEnv) (t : Ty) (cur : List Bool) (vt : VTy) (vb : List Bool) :
     Path → Option (List Bool × P × BEnv)
   | .nil => if VTy.ofTy t = vt then some (vb, none, benv) else none
   | .tup i rest =>
@@ -695,7 +738,7 @@ def callAt (prog : Prog) : Nat → CallFn
       if prog.consts.isEmpty then
         match bindParams d.params vs with
         | some callee =>
-          match bitStmts (callAt prog n) callee d.body with
+          match bitStmts ⟨callAt prog n, prog.enum?⟩ callee d.body with
           | some (t, bs, p, _) => some (t, bs, p)
           | none => none
         | none => none
@@ -703,7 +746,7 @@ def callAt (prog : Prog) : Nat → CallFn
 
 /-- a function body with calls inlined as deep as the program can nest them -/
 def bitBody (prog : Prog) (benv : BEnv) (body : StmtList) : Option (VTy × List Bool × P × BEnv) :=
-  bitStmts (callAt prog (prog.fns.length + 1)) benv body
+  bitStmts ⟨callAt prog (prog.fns.length + 1), prog.enum?⟩ benv body
 
 end Bit
 end GV
